@@ -100,7 +100,9 @@ RULE = (f"run i < {TABLE_SIZE} is the i-th case of the complete table: {len(SHAP
         "random attempts incl. unknown ports), external inputs raw / labelled / mislabelled / missing / doubled with a "
         "wire, a per-run share of misbehaving handlers, enforce_static_checks off in a third of the runs, and in 40 % "
         "of the runs a second phase (new modules, further wire attempts, external inputs added or withdrawn, late "
-        "handler registration) followed by a second execute() on the same executor; the capability question is asked, "
+        "handler registration) followed by a second execute() on the same executor; module and port names are m0/i0/o0, "
+        "or an input and an output port of a module share a name, or dotted names whose '<module>.<port>' strings "
+        "coincide (per sampled run); the capability question is asked, "
         "the answer edited by the caller, asked again, and asked of a second diagram that reuses the first ModuleSpec "
         "objects; non-trivial = at least one accepted wire and at least one handler whose behaviour actually "
         "contradicts its declaration, or an unschedulable diagram (cycle, missing or duplicate source, missing handler) "
@@ -126,6 +128,9 @@ ASSUMPTIONS = [
     "connect(), the flag only removes a per-wire re-check that connect() and the output coercion already imply",
     "every execute() of the same executor is 'an execution of an accepted diagram': the diagram is read as it is at "
     "that moment (wires and modules added after an earlier execute() count)",
+    "only wires attempted through connect() are generated: a diagram holding a directly appended Wire that connect() "
+    "would refuse is not an 'accepted diagram' (with enforce_static_checks=False the unchanged code delivers over such a "
+    "wire unchecked, and the statement has no flag exemption)",
     "the declared capability sets are the harness's own copy of the plan; a returned answer belongs to the caller "
     "(editing it must not change later answers), and a ModuleSpec reused in a second diagram still declares what it "
     "was built with",
@@ -136,7 +141,9 @@ EXPECT_PROBES = ("executed", "wiring_error", "cycle", "fan_in", "ext_plus_wire",
                  "handler_raised", "ext_mislabelled", "seven_modules", "executed_5plus_modules", "labelled_outputs_accepted",
                  "second_execute", "second_execute_ok_after_first_failed", "second_execute_refused_after_first_ok",
                  "second_execute_after_late_wire", "second_execute_after_late_module", "static_checks_off",
-                 "static_off_unwired_handlerless_module", "caps_answer_edited", "caps_spec_reused")
+                 "static_off_unwired_handlerless_module", "caps_answer_edited", "caps_spec_reused",
+                 "connect_verdict_differs_for_same_named_output_port", "dotted_names_two_wired_ports_one_flat_key",
+                 "dotted_names_unwired_port_shares_flat_key_with_wired_one")
 
 
 class HandlerBoom(RuntimeError):
@@ -283,6 +290,7 @@ def _sampled(rng, tier):
         ops.insert(rng.randint(0, len(ops)), bad)
     plan = {"config": {"family": "sampled", "shape": "structured" if structured else "random",
                        "static": rng.random() >= 0.33,
+                       "names": weighted(rng, [(5, "distinct"), (3, "shared"), (2, "dotted")]),
                        "caps_edit": rng.choice(["none", "clear", "clear", "add", "discard"])},
             "modules": modules, "ops": ops, "pre": pre}
     if not two_phase:
@@ -354,6 +362,8 @@ def simplify(plan):
         yield {**plan, "config": {**cfg, "static": True}}
     if cfg.get("caps_edit", "none") != "none":
         yield {**plan, "config": {**cfg, "caps_edit": "none"}}
+    if cfg.get("names", "distinct") != "distinct":
+        yield {**plan, "config": {**cfg, "names": "distinct"}}
     post = plan.get("post") or []
     refs_post = lambda j: any((e[0] == "wire" and j in (e[1], e[3])) or (e[0] in ("ext", "unext", "reg") and e[1] == j)  # noqa: E731
                               for e in post)
@@ -454,6 +464,7 @@ class _World:
         self.k, self.plan, self.tr = k, plan, tr
         self.cfg = plan["config"]
         self.static = self.cfg.get("static", True) is not False
+        self.names = self.cfg.get("names", "distinct")
         self.mods = []            # the harness's copy of every module declaration (never read back from the specs)
         self.specs = []
         self.d = WiringDiagram()
@@ -466,15 +477,33 @@ class _World:
         self.count, self.calls, self.bad_label_delivered = [], [], False
         self.sources, self.reasons, self.shape, self.eff, self.wired_out = {}, [], "dag", [], set()
 
+    # ---- names: indices inside the harness, names only at the library's API
+    #   distinct: m0 / i0 / o0
+    #   shared:   an input and an output port of a module carry the same name (p0, p1, ...)
+    #   dotted:   module j is "n.n...n" (j+1 segments) and its input port p is "n."*(7-j) + "i<p>", so that
+    #             "<module>.<port>" is the same flat string for the p-th input port of every module
+    def mn(self, j):
+        return ".".join(["n"] * (j + 1)) if self.names == "dotted" else f"m{j}"
+
+    def inn(self, j, p):
+        if self.names == "shared":
+            return f"p{p}"
+        if self.names == "dotted":
+            return "n." * (7 - j) + f"i{p}"
+        return f"i{p}"
+
+    def outn(self, j, p):
+        return f"p{p}" if self.names == "shared" else f"o{p}"
+
     # ---- building
     def add_module(self, m, late=False):
         j = len(self.mods)
         m = {"ins": [list(p) for p in m["ins"]], "outs": [list(p) for p in m["outs"]], "caps": list(m["caps"]),
              "handler": None if m["handler"] is None else list(m["handler"])}
         spec = ModuleSpec(
-            name=f"m{j}",
-            inputs={f"i{p}": PortType(DataType[t], IntegrityLabel(g)) for p, (t, g) in enumerate(m["ins"])},
-            outputs={f"o{p}": PortType(DataType[t], IntegrityLabel(g)) for p, (t, g) in enumerate(m["outs"])},
+            name=self.mn(j),
+            inputs={self.inn(j, p): PortType(DataType[t], IntegrityLabel(g)) for p, (t, g) in enumerate(m["ins"])},
+            outputs={self.outn(j, p): PortType(DataType[t], IntegrityLabel(g)) for p, (t, g) in enumerate(m["outs"])},
             capabilities={Capability[c] for c in m["caps"]})
         out = call(self.d.add_module, spec, tracer=self.tr)
         if out.kind != "ok":
@@ -485,7 +514,7 @@ class _World:
             self.register(j)
 
     def register(self, j):
-        out = call(self.ex.register_module, f"m{j}", self._make_handler(j), tracer=self.tr)
+        out = call(self.ex.register_module, self.mn(j), self._make_handler(j), tracer=self.tr)
         if out.kind != "ok":
             raise HarnessError(f"register_module failed: {out.brief()}")
 
@@ -502,7 +531,11 @@ class _World:
             rel = f"same_type={st == dt_}:src{'<' if sg < dg else '=' if sg == dg else '>'}dst"
         else:
             legal, rel = False, "unknown_port"
-        out = call(d.connect, f"m{s}", f"o{sp}", f"m{t}", f"i{tp}", tracer=self.tr)
+        if self.names == "shared" and known and tp < len(mods[t]["outs"]) and mods[t]["outs"][tp] != mods[t]["ins"][tp]:
+            other = mods[t]["outs"][tp]
+            if (st == other[0] and sg >= other[1]) != legal:
+                k.probe("connect_verdict_differs_for_same_named_output_port")
+        out = call(d.connect, self.mn(s), self.outn(s, sp), self.mn(t), self.inn(t, tp), tracer=self.tr)
         k.ev("connect", [op, out.brief()])
         if out.kind not in ("ok", "raised"):
             k.violation("connect_rule", "connect_" + out.kind, rel)
@@ -527,7 +560,7 @@ class _World:
             k.probe("connect_refused_unknown_port" if not known else
                     "connect_refused_type" if st != dt_ else "connect_refused_integrity")
         got = [(w.src_module, w.src_port, w.dst_module, w.dst_port) for w in d.wires]
-        want = [(f"m{a}", f"o{b}", f"m{c}", f"i{e}") for a, b, c, e in self.accepted]
+        want = [(self.mn(a), self.outn(a, b), self.mn(c), self.inn(c, e)) for a, b, c, e in self.accepted]
         if got != want:
             k.violation("connect_rule", "wire_list_differs_from_accepted_connects", rel,
                         f"wires={got} accepted={want}")
@@ -610,7 +643,7 @@ class _World:
                 k.violation("all_inputs", "inputs_not_a_mapping", shape, type(inputs).__name__)
                 inputs = {}
             for p, (pt, pg) in enumerate(m["ins"]):
-                name = f"i{p}"
+                name = w.inn(j, p)
                 if name not in inputs:
                     origin = "wired" if (j, p) in w.sources else "external" if (j, p) in w.ext else "unsourced"
                     k.violation("all_inputs", "ran_without_input", f"{origin}:{shape}",
@@ -645,10 +678,10 @@ class _World:
             out_ = {}
             for p, (pt, pg) in enumerate(m["outs"]):
                 tok = f"v{j}.{p}"
-                out_[f"o{p}"] = TypedValue(DataType[pt], IntegrityLabel(pg), tok) if kd == "labelled" else tok
+                out_[w.outn(j, p)] = TypedValue(DataType[pt], IntegrityLabel(pg), tok) if kd == "labelled" else tok
             omitted = []
             if cls == "omit":
-                del out_[f"o{t}"]
+                del out_[w.outn(j, t)]
                 omitted = [t]
             elif cls == "extra":
                 out_["zz"] = f"v{j}.zz"
@@ -660,7 +693,7 @@ class _World:
                     lab = (DataType[pt], IntegrityLabel(pg - 1))
                 else:
                     lab = (DataType[pt], IntegrityLabel(pg + 1))
-                out_[f"o{t}"] = TypedValue(lab[0], lab[1], f"v{j}.{t}")
+                out_[w.outn(j, t)] = TypedValue(lab[0], lab[1], f"v{j}.{t}")
                 k.probe(cls)
             if cls != "conform":
                 k.fault("collab_adversarial_value")
@@ -706,6 +739,13 @@ class _World:
         contradicting = [e[0] for e in eff if e[0].startswith("mislabel") or e[0] in ("omit", "extra", "raises")]
         if (self.accepted and contradicting) or (reasons and (self.accepted or self.refused)):
             self.nontrivial = True
+        if self.names == "dotted":
+            wired_p = [tp for (_, tp) in sources]
+            if len(wired_p) != len(set(wired_p)):
+                k.probe("dotted_names_two_wired_ports_one_flat_key")
+            if any((j, p) not in sources and any(tp == p for (_, tp) in sources)
+                   for j, m in enumerate(mods) for p in range(len(m["ins"]))):
+                k.probe("dotted_names_unwired_port_shares_flat_key_with_wired_one")
         if not self.static:
             k.probe("static_checks_off")
             if any(m["handler"] is None and m["outs"] and not any((j, q) in wired_out for q in range(len(m["outs"])))
@@ -717,7 +757,7 @@ class _World:
         external = {}
         for (m, p), e in sorted(ext.items()):
             val = e[1] if e[0] == "raw" else TypedValue(DataType[e[1]], IntegrityLabel(e[2]), e[3])
-            external.setdefault(f"m{m}", {})[f"i{p}"] = val
+            external.setdefault(self.mn(m), {})[self.inn(m, p)] = val
         if ext_bad:
             k.probe("ext_mislabelled")
         if self.static:
@@ -777,30 +817,31 @@ class _World:
                             f"m{j} omitted a wired output port, yet a report was returned")
             # -- every module exactly once, in an order consistent with the wires
             order = list(rep.execution_order)
-            names = [f"m{j}" for j in range(n)]
+            names = [self.mn(j) for j in range(n)]
+            index_of = {nm: j for j, nm in enumerate(names)}
             if sorted(order) != sorted(names):
                 k.violation("once", "report_does_not_list_every_module_once", shape, f"order={order}")
             else:
                 pos = {nm: q for q, nm in enumerate(order)}
                 for s, sp, t, tp in self.accepted:
-                    if not pos[f"m{s}"] < pos[f"m{t}"]:
+                    if not pos[self.mn(s)] < pos[self.mn(t)]:
                         k.violation("order", "module_before_its_feeder", shape,
                                     f"wire m{s}.o{sp}->m{t}.i{tp} but order={order}")
                         break
             for j, m in enumerate(mods):
                 if m["handler"] is not None and count[j] != 1:
                     k.violation("once", "handler_not_called_exactly_once", shape, f"m{j}: {count[j]} calls; order={order}")
-            called = [f"m{c[0]}" for c in calls]
-            if called != [nm for nm in order if nm in names and mods[int(nm[1:])]["handler"] is not None] \
+            called = [self.mn(c[0]) for c in calls]
+            if called != [nm for nm in order if nm in index_of and mods[index_of[nm]]["handler"] is not None] \
                     and sorted(order) == sorted(names):
                 k.violation("order", "call_order_differs_from_reported_order", shape, f"calls={called} order={order}")
             # -- labels of the recorded inputs
             for j, m in enumerate(mods):
-                rec = rep.modules.get(f"m{j}")
+                rec = rep.modules.get(self.mn(j))
                 if rec is None:
                     continue
                 for p, (pt, pg) in enumerate(m["ins"]):
-                    v = rec.inputs.get(f"i{p}")
+                    v = rec.inputs.get(self.inn(j, p))
                     if (not isinstance(v, TypedValue) or v.data_type != DataType[pt] or not v.integrity >= IntegrityLabel(pg)) \
                             and not self.bad_label_delivered:
                         k.violation("delivery_label", "report_records_ill_labelled_input", f"{self.feeder(j, p)}:{shape}",
